@@ -12,11 +12,13 @@ The explicit statements that this rests on are `matchAt_consumes` (every alterna
 least one and at most the available characters) and `scanTerms_spans` (the reported spans are non-empty, ordered,
 disjoint and inside the text).
 
-Partial (stated, not hidden): CPython's `compile`/`exec` (the syntax check of `parse_model`) and the symbol stage
-(`Symbol.combine`) are not part of M2; the statements below are about everything before them.  The full-strength
-claim "never an unrelated internal exception" is FALSE for the code: see `format_fails_manual_field`,
-`format_fails_empty_field`, `unpack_fails_without_equals` (negations at concrete witnesses) and
-`parse_error_classes` for the guarded positive statement.
+Partial (stated, not hidden): CPython's `compile` (the syntax check of `parse_model`; it no longer executes the
+statement) is not part of M2, and of the symbol stage only the outcome class is modelled here (`symbolStage`;
+the symbols themselves are M3).  Since the fixes a900a8c…d65c5fa the full-strength claim holds on the model:
+`parse_error_classes` has no guard any more — every failure of `parseEquationText` is a ParserError, an
+IndentationError or a SymbolError; `format_cannot_fail` explains why (`str.format` is only reached with a template
+whose braces are the `{}` of the matched terms and with exactly that many arguments).  The former failure
+witnesses are kept as positive examples: these inputs are now rejected with ParserError.
 -/
 namespace Fsic.C13
 open Fsic.Lx
@@ -35,40 +37,9 @@ theorem matchAt_consumes (pw : Bool) (s : List Char) (m : M) (h : matchAt pw s =
 
 example : matchAt false ['H', '[', ' ', '-', '1', ']', '+'] = some ⟨.variable, ['H'], some ['-', '1'], 6⟩ := by decide
 
-/-- non-empty, ordered, pairwise disjoint spans between `lo` and `hi` -/
-def SpansFrom (lo hi : Nat) : List RawMatch → Prop
-  | [] => True
-  | m :: ms => lo ≤ m.start ∧ m.start < m.stop ∧ m.stop ≤ hi ∧ SpansFrom m.stop hi ms
-
-theorem SpansFrom.weaken {lo lo' hi : Nat} (h : lo' ≤ lo) : ∀ {ms : List RawMatch}, SpansFrom lo hi ms → SpansFrom lo' hi ms
-  | [], _ => trivial
-  | m :: ms, ⟨h1, h2, h3, h4⟩ => ⟨by omega, h2, h3, h4⟩
-
-theorem scanGo_spans : ∀ (s : List Char) (skip : Nat) (pw : Bool) (pos : Nat),
-    SpansFrom (pos + skip) (pos + s.length) (scanGo skip pw pos s)
-  | [], _, _, _ => by simp [scanGo, SpansFrom]
-  | c :: cs, skip + 1, pw, pos => by
-    simp only [scanGo, List.length_cons]
-    have := scanGo_spans cs skip (isWordU c) (pos + 1)
-    have e1 : pos + 1 + skip = pos + (skip + 1) := by omega
-    have e2 : pos + 1 + cs.length = pos + (cs.length + 1) := by omega
-    rw [e1, e2] at this; exact this
-  | c :: cs, 0, pw, pos => by
-    simp only [scanGo, List.length_cons]
-    cases hm : matchAt pw (c :: cs) with
-    | none =>
-      have := scanGo_spans cs 0 (isWordU c) (pos + 1)
-      have e2 : pos + 1 + cs.length = pos + (cs.length + 1) := by omega
-      rw [e2] at this
-      exact this.weaken (by omega)
-    | some m =>
-      have hl := matchAt_consumes pw (c :: cs) m hm
-      simp only [List.length_cons] at hl
-      have := scanGo_spans cs (m.len - 1) (isWordU c) (pos + 1)
-      have e1 : pos + 1 + (m.len - 1) = pos + m.len := by omega
-      have e2 : pos + 1 + cs.length = pos + (cs.length + 1) := by omega
-      rw [e1, e2] at this
-      exact ⟨by simp [M.at], by simp [M.at]; omega, by simp [M.at]; omega, by simpa [M.at] using this⟩
+/-- Spans reported from any scanner state are non-empty, ordered, pairwise disjoint and inside the text. -/
+theorem scanGo_spans (s : List Char) (skip : Nat) (pw : Bool) (pos : Nat) :
+    SpansFrom (pos + skip) (pos + s.length) (scanGo skip pw pos s) := scanGo_spansL s skip pw pos
 
 /-- `term_re.finditer`: the spans are non-empty, in order, disjoint and inside the text. -/
 theorem scanTerms_spans (s : List Char) : SpansFrom 0 s.length (scanTerms s) := by
@@ -96,145 +67,163 @@ theorem split_yields_checked : ∀ (l : List (List Char)) (st : SplitState),
 example : splitStatements ['Y', '=', '(', 'X', '\n', ')', ' ', '#', 'c', '\n', '\n', 'Z', '=', '1'] =
     ([['Y', '=', '(', 'X', '\n', ')'], ['Z', '=', '1']], .ok) := by decide
 
-/-- The unterminated fence: the rest of the script is swallowed and no error is reported (what the code does). -/
-theorem unterminated_fence_swallows :
-    splitStatements ['Y', '=', 'X', '\n', '`', '`', '`', '\n', 'Z', '=', 'W'] = ([['Y', '=', 'X']], .ok) := by decide
+/-- An unterminated fence is an error at the end of the input (it used to swallow the rest silently); the
+    statements before it have already been yielded. -/
+theorem unterminated_fence_rejected :
+    splitStatements ['Y', '=', 'X', '\n', '`', '`', '`', '\n', 'Z', '=', 'W'] = ([['Y', '=', 'X']], .parserError) := by
+  decide
 
 /-! ## `str.format` on the template -/
 
-/-- **format_safe**: if every `{` / `}` of the statement lies inside a matched term, the normalised template has
-    exactly one automatic field per match and `str.format` succeeds with the arguments in order. -/
-theorem format_safe (s : List Char) (args : List (List Char)) (hb : bracesInside 0 0 (scanTerms s) s = true)
+/-- **format_safe**: if no `{` / `}` of the statement lies outside the matched terms (the check `parse_equation`
+    now makes), the normalised template has exactly one automatic field per match and `str.format` succeeds with
+    the arguments in order. -/
+theorem format_safe (s : List Char) (args : List (List Char)) (hb : (outside s).any isBrace = false)
     (ha : args.length = (scanTerms s).length) :
     Auto (scanTerms s).length (normaliseWs (template s)) ∧
     pyFormat (normaliseWs (template s)) args = .ok (renderP (fmtPieces none (normaliseWs (template s))) args) := by
+  have hsp : SpansFrom (0 + 0) (0 + s.length) (scanTerms s) := by simpa using scanTerms_spans s
   have hauto : Auto (scanTerms s).length (normaliseWs (template s)) :=
-    (template_auto s 0 0 (scanTerms s) hb).normalise
+    (template_auto s 0 0 (scanTerms s) hsp hb).normalise
   have hp := fmtPieces_auto hauto
   refine ⟨hauto, ?_⟩
   unfold pyFormat
   rw [fmtRun_unset hp, fmtRun_auto hp args 0 (by omega)]
   simp
 
-/-- … and with fewer arguments than fields it fails (IndexError). -/
-theorem format_safe_arity (s : List Char) (args : List (List Char)) (hb : bracesInside 0 0 (scanTerms s) s = true)
+/-- … and with fewer arguments than fields it fails (IndexError): the reason for the "term spans the `=`" check. -/
+theorem format_safe_arity (s : List Char) (args : List (List Char)) (hb : (outside s).any isBrace = false)
     (ha : args.length < (scanTerms s).length) : pyFormat (normaliseWs (template s)) args = .fail := by
+  have hsp : SpansFrom (0 + 0) (0 + s.length) (scanTerms s) := by simpa using scanTerms_spans s
   have hauto : Auto (scanTerms s).length (normaliseWs (template s)) :=
-    (template_auto s 0 0 (scanTerms s) hb).normalise
+    (template_auto s 0 0 (scanTerms s) hsp hb).normalise
   have hp := fmtPieces_auto hauto
   unfold pyFormat
   rw [fmtRun_unset hp, fmtRun_auto_short hp args 0 (by omega) (by omega)]
 
+/-- **format_cannot_fail**: whenever `parse_equation` gets past its checks (no brace outside the matched terms, as
+    many terms as matches), both calls of `str.format` succeed. -/
+theorem format_cannot_fail (s : List Char) (lt rt : List Term) (hb : (outside s).any isBrace = false)
+    (hl : (lt ++ rt).length = (scanTerms s).length) :
+    pyFormat (normaliseWs (template s)) ((lt ++ rt).map termStr) ≠ .fail ∧
+    pyFormat (normaliseWs (template s)) ((lt ++ rt).map termCode) ≠ .fail := by
+  constructor
+  · rw [(format_safe s _ hb (by simpa using hl)).2]; simp
+  · rw [(format_safe s _ hb (by simpa using hl)).2]; simp
+
 /-- `Y = {alpha} * X [1]` -/
 def okStmt : List Char := ['Y', ' ', '=', ' ', '{', 'a', '}', ' ', '*', ' ', ' ', 'X', '[', '1', ']']
 
-example : bracesInside 0 0 (scanTerms okStmt) okStmt = true ∧ (scanTerms okStmt).length = 3 := by decide
+example : (outside okStmt).any isBrace = false ∧ (scanTerms okStmt).length = 3 := by decide
 example : parseEquationText okStmt =
     .parsed [⟨.variable, ['Y'], .int 0⟩] [⟨.parameter, ['a'], .int 0⟩, ⟨.variable, ['X'], .int 1⟩]
       (.ok ['Y', '[', 't', ']', ' ', '=', ' ', 'a', '[', 't', ']', ' ', '*', ' ', 'X', '[', 't', '+', '1', ']'])
       (.ok ['s', 'e', 'l', 'f', '.', '_', 'Y', '[', 't', ']', ' ', '=', ' ', 's', 'e', 'l', 'f', '.', '_', 'a', '[', 't', ']',
             ' ', '*', ' ', 's', 'e', 'l', 'f', '.', '_', 'X', '[', 't', '+', '1', ']']) := by decide
 
-/-- Full-strength claim is false: `Y = {0}` — ValueError (automatic → manual field numbering). -/
-theorem format_fails_manual_field :
-    parseEquationText ['Y', ' ', '=', ' ', '{', '0', '}'] = .err .formatFailure ∧
-    bracesInside 0 0 (scanTerms ['Y', ' ', '=', ' ', '{', '0', '}']) ['Y', ' ', '=', ' ', '{', '0', '}'] = false := by
+/-! The inputs that used to escape as ValueError / IndexError / KeyError (or to lose a term silently) are now
+    rejected with the parser's own error. -/
+
+/-- `Y = {0}` (was: ValueError, automatic → manual field numbering) -/
+theorem manual_field_rejected : parseEquationText ['Y', ' ', '=', ' ', '{', '0', '}'] = .err .parserError := by decide
+
+/-- `Y = {}` (was: IndexError) -/
+theorem empty_field_rejected : parseEquationText ['Y', ' ', '=', ' ', '{', '}'] = .err .parserError := by decide
+
+/-- `Y = {{X}}` (was: accepted, the parameter dropped from the equation) -/
+theorem escaped_term_rejected :
+    parseEquationText ['Y', ' ', '=', ' ', '{', '{', 'X', '}', '}'] = .err .parserError := by decide
+
+/-- A parenthesised fenced block passes `equation_re` but has no `=` (was: ValueError from tuple unpacking). -/
+theorem missing_equals_rejected :
+    parseEquationText ['(', '\n', '`', '`', '`', '\n', 'y', '\n', '`', '`', '`', '\n', ')'] = .err .parserError := by
   decide
 
-/-- `Y = {}` — IndexError (two fields, one argument). -/
-theorem format_fails_empty_field :
-    parseEquationText ['Y', ' ', '=', ' ', '{', '}'] = .err .formatFailure ∧
-    bracesInside 0 0 (scanTerms ['Y', ' ', '=', ' ', '{', '}']) ['Y', ' ', '=', ' ', '{', '}'] = false := by
-  decide
+/-- A backticked fragment that contains the `=` is one match of the whole statement but no term of either side
+    (was: IndexError). -/
+theorem straddling_term_rejected : parseEquationText ['Y', '`', '=', '`'] = .err .parserError := by decide
 
-/-- `Y = {{X}}` — no error, but the parameter term is dropped from the equation (`{{`, `}}` are escapes). -/
-theorem format_drops_escaped_term :
-    parseEquationText ['Y', ' ', '=', ' ', '{', '{', 'X', '}', '}'] =
-      .parsed [⟨.variable, ['Y'], .int 0⟩] [⟨.parameter, ['X'], .int 0⟩]
-        (.ok ['Y', '[', 't', ']', ' ', '=', ' ', '{', '}'])
-        (.ok ['s', 'e', 'l', 'f', '.', '_', 'Y', '[', 't', ']', ' ', '=', ' ', '{', '}']) := by decide
+/-- `1 = X` and `log = log(X)` (were: accepted, no equation) -/
+theorem no_endogenous_rejected :
+    parseEquationText ['1', ' ', '=', ' ', 'X'] = .err .parserError ∧
+    parseEquationText ['l', 'o', 'g', ' ', '=', ' ', 'l', 'o', 'g', '(', 'X', ')'] = .err .parserError := by decide
 
-/-- A parenthesised fenced block passes `equation_re` but has no `=`: tuple unpacking fails (ValueError). -/
-theorem unpack_fails_without_equals :
-    parseEquationText ['(', '\n', '`', '`', '`', '\n', 'y', '\n', '`', '`', '`', '\n', ')'] = .err .unpackFailure := by
-  decide
-
-/-- A backticked fragment that contains the `=` is one match of the whole statement but no term of either side:
-    two fields, one argument (IndexError).  This is what the guard `TermsAlign` of `parse_error_classes` excludes. -/
-theorem format_fails_straddling_term : parseEquationText ['Y', '`', '=', '`'] = .err .formatFailure := by decide
+/-- `Y = {Y}`: a name used both as variable and as parameter is a SymbolError. -/
+example : parseEquationText ['Y', ' ', '=', ' ', '{', 'Y', '}'] = .err .symbolError := by decide
 
 /-! ## Error classes -/
 
-/-- Where the model's errors come from: everything is a ParserError except the two internal failures, each with
-    its exact cause. -/
-theorem parseBody_errors (s : List Char) (e : PErr) (h : parseBody s = .err e) :
-    e = .parserError ∨ (e = .unpackFailure ∧ splitAtEq s = none) ∨
-    (e = .formatFailure ∧ ∃ lt rt, equationTerms s = .ok (lt, rt) ∧
-      pyFormat (normaliseWs (template s)) ((lt ++ rt).map termStr) = .fail) := by
-  unfold parseBody at h
-  split at h
-  · cases h
-  · split at h
-    · simp at h; exact Or.inl h.symm
-    · split at h
-      · rename_i e' he
-        simp at h; subst h
-        unfold equationTerms at he
-        split at he
-        · simp at he; exact Or.inr (Or.inl ⟨he.symm, by assumption⟩)
-        · split at he
-          · simp at he; exact Or.inl he.symm
-          · split at he
-            · simp at he; exact Or.inl he.symm
-            · split at he
-              · simp at he; exact Or.inl he.symm
-              · cases he
-      · rename_i lt rt he
-        unfold finishEq at h
-        split at h
-        · rename_i hf
-          simp at h
-          exact Or.inr (Or.inr ⟨h.symm, lt, rt, he, hf⟩)
-        · cases h
-
-/-- The number of terms found on the two sides of the first `=` equals the number of matches in the whole
-    statement (no match straddles the `=`). -/
-def TermsAlign (s : List Char) : Prop :=
-  ∀ l r, splitAtEq s = some (l, r) → (scanTerms l).length + (scanTerms r).length = (scanTerms s).length
-
-/-- **parse_error_classes**: a statement that contains `=`, whose braces all lie inside matched terms and whose
-    matches do not straddle the `=`, fails — if it fails — with ParserError or IndentationError only.
-    (The other two constructors of the model's error type are the internal failures excluded by the guards.) -/
-theorem parse_error_classes (s : List Char) (e : PErr) (h : parseEquationText s = .err e)
-    (hb : bracesInside 0 0 (scanTerms s) s = true) (ht : TermsAlign s) (heq : splitAtEq s ≠ none) :
-    e = .parserError ∨ e = .indentationError := by
+/-- **parse_error_classes** (full strength, no guard): every failure of `parse_equation` on the model is one of
+    the parser's own errors — ParserError, IndentationError or SymbolError; the format failure of the model's error
+    type is unreachable. -/
+theorem parse_error_classes (s : List Char) (e : PErr) (h : parseEquationText s = .err e) :
+    e = .parserError ∨ e = .indentationError ∨ e = .symbolError := by
   unfold parseEquationText at h
   split at h
   · cases h
   · split at h
     · simp at h; exact Or.inl h.symm
-    · simp at h; exact Or.inr h.symm
-    · rcases parseBody_errors s e h with h1 | ⟨_, h2⟩ | ⟨_, lt, rt, h3, h4⟩
-      · exact Or.inl h1
-      · exact absurd h2 heq
-      · obtain ⟨l, r, hs, hl, hr⟩ := equationTerms_ok s lt rt h3
-        have hlen : ((lt ++ rt).map termStr).length = (scanTerms s).length := by
-          simp [hl, hr, ht l r hs]
-        rw [(format_safe s _ hb hlen).2] at h4
-        cases h4
+    · simp at h; exact Or.inr (Or.inl h.symm)
+    · unfold parseBody at h
+      split at h
+      · cases h
+      · split at h
+        · simp at h; exact Or.inl h.symm
+        · rename_i _ hb
+          split at h
+          · simp at h; exact Or.inl h.symm
+          · rename_i hbr
+            have hbr' : (outside s).any isBrace = false := by simpa using hbr
+            split at h
+            · rename_i e' he
+              simp at h; subst h
+              exact Or.inl (equationTerms_err s e' he)
+            · rename_i lt rt he
+              split at h
+              · simp at h; exact Or.inl h.symm
+              · rename_i hlen
+                have hlen' : (lt ++ rt).length = (scanTerms s).length := by simpa using hlen
+                have hf := format_cannot_fail s lt rt hbr' hlen'
+                unfold finishEq at h
+                split at h
+                · rename_i hfail; exact absurd hfail hf.1
+                · split at h
+                  · rename_i e' hs
+                    simp at h; subst h
+                    unfold symbolStage at hs
+                    split at hs
+                    · rename_i e'' hl
+                      simp at hs; subst hs
+                      -- the symbol loop only raises ParserError or SymbolError
+                      exact symLoop_errors _ _ _ _ hl
+                    · split at hs
+                      · cases hs
+                      · simp at hs; exact Or.inl hs.symm
+                  · cases h
     · simp at h; exact Or.inl h.symm
 
-example : TermsAlign okStmt ∧ splitAtEq okStmt ≠ none := by
-  constructor
-  · intro l r h
-    have : splitAtEq okStmt = some (['Y', ' '], [' ', '{', 'a', '}', ' ', '*', ' ', ' ', 'X', '[', '1', ']']) := by decide
-    rw [this] at h; simp at h; obtain ⟨rfl, rfl⟩ := h
-    decide
-  · decide
+/-- `parse_model` level: every error the statement loop reports is one of the three. -/
+theorem parseScript_error_classes (s : List Char) (e : PErr) (h : EqOut.err e ∈ parseScript s) :
+    e = .parserError ∨ e = .indentationError ∨ e = .symbolError := by
+  unfold parseScript at h
+  generalize (splitStatements s).1 = ss at h
+  generalize (splitStatements s).2 = en at h
+  induction ss with
+  | nil => cases en <;> simp [scriptGo] at h <;> simp [h]
+  | cons st ss ih =>
+    unfold scriptGo at h
+    split at h
+    · rename_i x hx
+      simp at h; rw [h]
+      exact parse_error_classes st x hx
+    · rename_i r hne
+      rcases List.mem_cons.mp h with h1 | h2
+      · exact absurd h1.symm (hne e)
+      · exact ih h2
 
-/-- A match may straddle the `=` (then `TermsAlign` fails): `Y[a=b] = X` has 2 matches but 4 terms. -/
+/-- A match may straddle the `=`: `Y[a=b] = X` has 2 matches but 4 terms, and is rejected. -/
 example : (scanTerms ['Y', '[', 'a', '=', 'b', ']', ' ', '=', ' ', 'X']).length = 2 ∧
-    (scanTerms ['Y', '[', 'a']).length + (scanTerms ['b', ']', ' ', '=', ' ', 'X']).length = 4 := by decide
+    parseEquationText ['Y', '[', 'a', '=', 'b', ']', ' ', '=', ' ', 'X'] = .err .parserError := by decide
 
 /-! ## The statement loop -/
 
@@ -266,7 +255,7 @@ theorem parseScript_stops_at_first_error : ∀ (ss : List (List Char)) (e : Spli
           | parsed _ _ _ _ => rfl
         · exact parseScript_stops_at_first_error ss e r (by rw [hg]; exact h')
 
-example : parseScript ['Y', '=', '{', '0', '}', '\n', ')'] = [.err .formatFailure] := by decide
+example : parseScript ['Y', '=', '{', '0', '}', '\n', ')'] = [.err .parserError] := by decide
 
 /-! ## `int()` -/
 
